@@ -517,6 +517,8 @@ class Gen:
         if sc.in_loop:
             opts += [(0.3, "breakif")]
         opts += [(0.4, "assert"), (0.5, "call"), (0.6, "store"), (0.3, "retif")]
+        if "class" in self.f and "array" in self.f and any(a.is_class and a.fields for a in self.p.aggs):
+            opts += [(0.5, "aliasburst")]
         k = self.wpick(opts)
         r = self.r
         if k == "let":
@@ -583,9 +585,15 @@ class Gen:
                     return None
                 fi = r.randrange(len(vt.decl.fields))
                 return ir.Assign(ir.FieldGet(ir.Var(v[0], vt), fi), self.expr(vt.decl.fields[fi][1], sc))
+            if vt.elem.kind == "Class" and vt.elem.decl.fields and self.chance(0.5):
+                # write a field through the element: the object may also be reachable through other references
+                fi = r.randrange(len(vt.elem.decl.fields))
+                return ir.Assign(ir.FieldGet(ir.Index(ir.Var(v[0], vt), self.index_expr(sc)), fi), self.expr(vt.elem.decl.fields[fi][1], sc, 1))
             if vt.kind == "Vec" and self.chance(0.5):
                 return ir.VecPush(ir.Var(v[0], vt), self.expr(vt.elem, sc, 1))
             return ir.Assign(ir.Index(ir.Var(v[0], vt), self.index_expr(sc)), self.expr(vt.elem, sc, 1))
+        if k == "aliasburst":
+            return self.alias_burst(sc)
         if k == "print":
             return self.print_stmt(sc)
         if k == "if":
@@ -639,6 +647,46 @@ class Gen:
             val = None if rt.kind == "Unit" else self.expr(rt, sc, 1)
             return ir.If(self.expr(BOOL, sc, 2), ir.Block([self.print_stmt(sc), ir.Return(val)]))
         return None
+
+    def alias_burst(self, sc):
+        """One object reachable through several references (local, array element, reloaded element, second local), field
+        writes through one of them and reads through another, without calls in between: aims at load/store elimination."""
+        r = self.r
+        cls = self.pick([a for a in self.p.aggs if a.is_class and a.fields])
+        ct = cls.ty
+        scal = [i for i, f in enumerate(cls.fields) if f[1].kind in ("Int32", "Int64", "Bool", "Float64", "Float32", "String", "Char", "UInt8")]
+        if not scal:
+            return None
+        fi = self.pick(scal)
+        ft = cls.fields[fi][1]
+        o, a, b = self.fresh(), self.fresh(), self.fresh()
+        out = [ir.Let(o, ct, False, ir.StructNew(cls, [self.expr(f[1], sc, 2) for f in cls.fields]))]
+        sc.add(o, ct, False)
+        others = sc.of_type(ct)
+        elems = [ir.Var(o, ct)] + [ir.Var(self.pick(others)[0], ct) for _ in range(r.randrange(0, 3))]
+        r.shuffle(elems)
+        pos = next(i for i, e in enumerate(elems) if e.name == o)
+        arr_t = ArrayT(ct)
+        out.append(ir.Let(a, arr_t, False, ir.ArrayNew(ct, elems)))
+        sc.add(a, arr_t, False)
+        if self.chance(0.7):
+            out.append(ir.Let(b, ct, False, ir.Index(ir.Var(a, arr_t), ir.Lit(pos, INT64))))
+            sc.add(b, ct, False)
+            refs = [ir.Var(o, ct), ir.Var(b, ct), ir.Index(ir.Var(a, arr_t), ir.Lit(pos, INT64))]
+        else:
+            refs = [ir.Var(o, ct), ir.Index(ir.Var(a, arr_t), ir.Lit(pos, INT64))]
+        for _ in range(r.randrange(1, 4)):
+            w, rd = self.pick(refs), self.pick(refs)
+            if self.chance(0.5):
+                # read first so that the value is cached
+                n0 = self.fresh()
+                out.append(ir.Let(n0, ft, False, ir.FieldGet(self.pick(refs), fi)))
+                sc.add(n0, ft, False)
+            out.append(ir.Assign(ir.FieldGet(w, fi), self.expr(ft, sc, 2)))
+            n1 = self.fresh()
+            out.append(ir.Let(n1, ft, self.chance(0.3), ir.FieldGet(rd, fi)))
+            sc.add(n1, ft, False)
+        return out
 
     def _walk_stmts(self, block, fn):
         keep = []
